@@ -45,7 +45,14 @@ def check(ctx: Ctx) -> None:
                     early = rc in reach([g.entry], avoid={c})
                     ok = (not early) or not any(can_follow(fl, rc) for fl in fills)
                     rep.ob("R14.1", "stop returns ids only after cancel() succeeded for them", ok, node=rc)
+            bad_test = id_value_steers(ctx, f)
+            if bad_test is not None:
+                rep.ob("R14.1", "the selection never depends on the value of an id (running ids have gaps: only the number of ids collected may bound it)", False, node=bad_test[0],
+                       detail=f"`{bad_test[1]}` is (computed from) an id drawn from the running registry; after tasks ended or were cancelled individually the ids are not "
+                              "contiguous, so an id threshold selects fewer tasks than asked for")
             verdict, why = prefix_idiom(ctx, f, lst, nump)
+            if bad_test is not None and verdict is None:
+                verdict, why = False, "the selection is steered by the value of an id"
             rep.ob("R14.1", "the ids are the first min(num, running) of the running registry in reverse insertion order", verdict, func=f,
                    construct=f"computation of `{lst}`", detail=why)
             # the list is not modified between being computed and being returned, other than by the recognised construction
@@ -78,6 +85,62 @@ def check(ctx: Ctx) -> None:
     K.r_two_phase(ctx, "R06.1")
     K.r_who_cancel(ctx, "R06.3")
     S.r_handoff(ctx, "R02.1")
+
+
+def id_value_steers(ctx: Ctx, f):
+    """(test step, variable) when a test of stop() - or of a helper spliced into it - compares by order, or after arithmetic, a value
+    that is an id drawn from the running registry; None otherwise.  Positive rule, independent of how the list is built."""
+    def source_is_running(fr, env, e: ast.AST, depth=0) -> bool:
+        e = ctx.vals.resolve(fr, e) if isinstance(e, ast.Name) else e
+        while isinstance(e, ast.Call) and isinstance(e.func, ast.Name) and e.func.id in ("reversed", "iter", "list", "tuple", "sorted", "enumerate", "next") and e.args:
+            e = e.args[0]
+            e = ctx.vals.resolve(fr, e) if isinstance(e, ast.Name) else e
+        if isinstance(e, ast.Call) and isinstance(e.func, ast.Attribute) and e.func.attr == "keys":
+            e = e.func.value
+        p = ctx.eff.paths(fr).of(e)
+        return p is not None and ctx.eff.rebase(p, fr, env) == RUN
+
+    frames = {}
+    for n in ctx.nodes(f, lambda n: True):
+        frames.setdefault(n.func.qual, (n.func, n.env))
+    tainted = set()  # (frame qual, local) holding an id or a number computed from one
+    for q, (fr, env) in frames.items():
+        sc = ctx.an.scope(fr)
+        changed = True
+        rounds = 0
+        while changed and rounds < 6:
+            changed = False
+            rounds += 1
+            for name, hows in sc.defs.items():
+                if (q, name) in tainted:
+                    continue
+                for h in hows:
+                    hit = False
+                    if h[0] == "iter" and source_is_running(fr, env, h[1]) and not (isinstance(h[1], ast.Call) and isinstance(h[1].func, ast.Name) and h[1].func.id == "enumerate"):
+                        hit = True
+                    elif h[0] == "elt" and h[1][0] == "iter" and isinstance(h[1][1], ast.Call) and isinstance(h[1][1].func, ast.Name) and h[1][1].func.id == "enumerate" \
+                            and h[2] == 1 and source_is_running(fr, env, h[1][1]):
+                        hit = True
+                    elif h[0] in ("assign", "ann"):
+                        v = h[1] if h[0] == "assign" else h[2]
+                        if isinstance(v, ast.Call) and isinstance(v.func, ast.Name) and v.func.id == "next" and v.args and source_is_running(fr, env, v.args[0]):
+                            hit = True
+                        elif v is not None and isinstance(v, (ast.BinOp, ast.UnaryOp, ast.Name)) and any(isinstance(x, ast.Name) and (q, x.id) in tainted for x in ast.walk(v)):
+                            hit = True
+                        elif v is not None and isinstance(v, ast.Call) and isinstance(v.func, ast.Name) and v.func.id in ("min", "max") \
+                                and any(isinstance(x, ast.Name) and (q, x.id) in tainted for x in ast.walk(v)):
+                            hit = True
+                    if hit:
+                        tainted.add((q, name))
+                        changed = True
+                        break
+    for t in ctx.nodes(f, lambda n: n.op == "test"):
+        for c in ast.walk(t.ast):
+            if isinstance(c, ast.Compare) and any(isinstance(o, (ast.Lt, ast.LtE, ast.Gt, ast.GtE)) for o in c.ops):
+                for x in ast.walk(c):
+                    if isinstance(x, ast.Name) and (t.func.qual, x.id) in tainted:
+                        return t, x.id
+    return None
 
 
 def is_len_of(e: ast.AST, name: str) -> bool:
